@@ -56,3 +56,136 @@ def segment_extent(seg_pos, next_off, raw_off, file_size):
         nxt = Ite(unknown, file_size, Min(declared_end, file_size))
         incomplete = Or(unknown, declared_end > file_size)
     return data_pos, nxt, incomplete
+
+
+# ---------------------------------------------------------------------------- parsing produced bytes
+
+class LayoutError(Exception):
+    pass
+
+
+class PartStream(object):
+    """A cursor over the typed parts of bytes produced by the program (pyvc.models.WBytes) or over real
+    bytes.  u(n) consumes an n-byte little-endian field and returns its value; blob(length) consumes
+    variable-length content and reports (via `check`) that the declared length equals what follows.
+    Concrete (raw) parts may hold several fields and are consumed piecewise."""
+
+    def __init__(self, parts, check):
+        self.parts = list(parts)
+        self.i = 0
+        self.off = 0           # offset inside the current raw part
+        self.check = check
+        self.consumed = 0
+
+    def _skip_empty(self):
+        while self.i < len(self.parts):
+            p = self.parts[self.i]
+            if p[0] == "raw" and self.off >= len(p[1]):
+                self.i += 1
+                self.off = 0
+            elif p[0] == "opaque" and isinstance(p[2], int) and p[2] == 0:
+                self.i += 1
+            else:
+                break
+
+    def done(self):
+        self._skip_empty()
+        return self.i >= len(self.parts)
+
+    def u(self, n, what):
+        if self.done():
+            raise LayoutError("missing field " + what)
+        p = self.parts[self.i]
+        if p[0] == "u" and p[1] == n and not p[3]:
+            self.i += 1
+            self.consumed = self.consumed + n
+            return p[2]
+        if p[0] == "raw" and len(p[1]) - self.off >= n:
+            v = int.from_bytes(p[1][self.off:self.off + n], "little")
+            self.off += n
+            self.consumed = self.consumed + n
+            return v
+        raise LayoutError("expected %d-byte little-endian field %s, found %r" % (n, what, p[:2]))
+
+    def blob(self, length, what):
+        """content of declared `length` bytes"""
+        if isinstance(length, int) and length == 0:
+            if self.done() or self.parts[self.i][0] != "opaque":
+                return None
+        if self.done():
+            raise LayoutError("missing content " + what)
+        p = self.parts[self.i]
+        if p[0] == "opaque":
+            self.i += 1
+            self.check("length-field-equals-bytes-that-follow/" + what, p[2] == length)
+            self.consumed = self.consumed + p[2]
+            return p
+        if p[0] == "raw":
+            if not isinstance(length, int):
+                raise LayoutError("symbolic length over concrete bytes for " + what)
+            avail = len(p[1]) - self.off
+            self.check("length-field-equals-bytes-that-follow/" + what, length <= avail)
+            r = ("raw", p[1][self.off:self.off + length])
+            self.off += length
+            self.consumed = self.consumed + length
+            return r
+        raise LayoutError("expected content for %s, found a fixed field" % what)
+
+
+def parse_metadata_parts(ps, truth):
+    """metadata grammar; returns [(path_part, index, props)] where index is None or (type, nv, total)"""
+    out = []
+    count = ps.u(4, "object-count")
+    k = 0
+    while truth(k < count):
+        if k > 64:
+            raise LayoutError("object count too large")
+        plen = ps.u(4, "path-length")
+        path = ps.blob(plen, "object-path")
+        start = ps.consumed
+        idx_len = ps.u(4, "raw-index-length")
+        index = None
+        if not truth(idx_len == NO_DATA):
+            tcode = ps.u(4, "data-type")
+            dim = ps.u(4, "dimension")
+            nv = ps.u(8, "number-of-values")
+            total = None
+            if truth(tcode == 0x20):
+                total = ps.u(8, "total-string-bytes")
+            ps.check("raw-index-length-field-equals-the-index-structure-it-heads", idx_len == ps.consumed - start)
+            ps.check("dimension-is-1", dim == 1)
+            index = (tcode, nv, total)
+        nprops = ps.u(4, "property-count")
+        props = []
+        j = 0
+        while truth(j < nprops):
+            if j > 64:
+                raise LayoutError("property count too large")
+            nlen = ps.u(4, "property-name-length")
+            name = ps.blob(nlen, "property-name")
+            ptype = ps.u(4, "property-type")
+            value = None
+            known = False
+            for c in sorted(TYPES):
+                if truth(ptype == c):
+                    known = True
+                    w = TYPES[c][1]
+                    if c == 0x20:
+                        sl = ps.u(4, "string-value-length")
+                        value = ("str", ps.blob(sl, "string-value"))
+                    elif c == 0x44:
+                        fr = ps.u(8, "timestamp-fractions")
+                        se = ps.u(8, "timestamp-seconds")
+                        value = ("ts", se, fr)
+                    elif w is not None and c not in (0x08000C, 0x10000D):
+                        value = ("num", c, ps.u(w, "value"))
+                    else:
+                        raise LayoutError("property type %x has no value encoding" % c)
+                    break
+            if not known:
+                raise LayoutError("unknown property type")
+            props.append((name, ptype, value))
+            j += 1
+        out.append((path, index, props))
+        k += 1
+    return out
